@@ -453,5 +453,133 @@ pub proof fn thm_tr_aggregate_bip340(res: Result<Signature<TR>, Error<TR>>, sp: 
     lemma_bip340_from_equation(vk, m, r, z);
 }
 
+// =====================================================================================================
+// Part 5 -- parity of the GROUP KEY, the BIP-341 tweak, the untweaked key, key generation
+
+// signer (pre_sign) and coordinator (pre_aggregate) normalise consistently: after the hooks the coordinator's verifying share of a
+// participant is still G * (the participant's signing share), and both hold the same (even-Y) group key -- for both parities of the key
+//@serves C18
+pub proof fn thm_tr_key_parity_consistent(kp: KeyPackage<TR>, pk: PublicKeyPackage<TR>, q: PublicKeyPackage<TR>)
+    requires tr_pkp_even_is(pk, q), kp.verifying_key == pk.verifying_key, pk.verifying_shares@.contains_key(kp.identifier),
+        pk.verifying_shares@[kp.identifier] == mk_vs(g_mul(kp.signing_share.0.0))
+    ensures q.verifying_shares@.contains_key(kp.identifier), q.verifying_shares@[kp.identifier] == mk_vs(g_mul(tr_kp_even(kp).signing_share.0.0)),
+        q.verifying_key == mk_vk(ev(vk_pt(pk.verifying_key))), tr_kp_even(kp).verifying_key == q.verifying_key
+{
+    if pt_y_odd(vk_pt(pk.verifying_key)) { lemma_smul_neg::<TR>(pt_gen(), kp.signing_share.0.0); }
+}
+
+// share verification by the coordinator == "the share is the one the signer's hooks compute", whatever the parities of key and commitment:
+// the check of the `verify_share` hook on the package pre_aggregate returns accepts EXACTLY the share of `compute_signature_share` on the
+// package pre_sign returns (so cheater identification blames exactly the participants whose share differs from it)
+//@serves C18
+pub proof fn thm_tr_share_check_exact(gc: GroupCommitment<TR>, sh: crate::round2::SignatureShare<TR>, sn: crate::round1::SigningNonces<TR>, bf: BindingFactor<TR>, lam: Scalar,
+        kp: KeyPackage<TR>, pk: PublicKeyPackage<TR>, q: PublicKeyPackage<TR>, c: Challenge<TR>)
+    requires tr_pkp_even_is(pk, q), kp.verifying_key == pk.verifying_key, pk.verifying_shares@.contains_key(kp.identifier),
+        pk.verifying_shares@[kp.identifier] == mk_vs(g_mul(kp.signing_share.0.0))
+    ensures TR::spec_hook_verify_share(gc, sh, kp.identifier, crate::round1::GroupCommitmentShare(commit_share::<TR>(sn.hiding.0.0, sn.binding.0.0, bf.0)),
+                q.verifying_shares@[kp.identifier], lam, c)
+            <==> sh.share.0 == TR::spec_hook_sig_share(gc, sn, bf, lam, tr_kp_even(kp), c).share.0
+{
+    thm_tr_key_parity_consistent(kp, pk, q);
+    thm_tr_hooks_share_parity(gc, sh, kp.identifier, sn, bf, lam, tr_kp_even(kp), c);
+}
+
+// BIP-341: tweaking keeps the sharing.  If the key shares lie on a polynomial a with P = a[0]*G, the tweaked shares (+-s_i + t) lie on the
+// polynomial with the coefficients negated iff P has odd Y and t added to the constant term, whose constant term is the discrete log of the
+// OUTPUT KEY  Q = lift_x(x(P)) + t*G,  t = hash_TapTweak(x(P) || root?)
+pub open spec fn tweaked_coeffs(p: ProjectivePoint, a: Seq<Scalar>, t: Scalar) -> Seq<Scalar>
+{ (if pt_y_odd(p) { neg_coeffs(a) } else { a }).update(0, sc_add(even_sc(p, a[0]), t)) }
+//@serves C18
+pub proof fn thm_tr_tweak_keeps_sharing(dom: Set<Identifier<TR>>, p: ProjectivePoint, sk: Map<Identifier<TR>, Scalar>, a: Seq<Scalar>, root: Option<Seq<u8>>)
+    requires on_poly::<TR>(dom, sk, a), p == g_mul(a[0])
+    ensures ({ let t = bip341_tweak(pt_x(p), root);
+        on_poly::<TR>(dom, Map::new(dom, |id: Identifier<TR>| sc_add(even_sc(p, sk[id]), t)), tweaked_coeffs(p, a, t))
+        && g_mul(tweaked_coeffs(p, a, t)[0]) == taproot_output_key(p, root) })
+{
+    let t = bip341_tweak(pt_x(p), root);
+    let ae = if pt_y_odd(p) { neg_coeffs(a) } else { a };
+    let at = tweaked_coeffs(p, a, t);
+    let skt = Map::new(dom, |id: Identifier<TR>| sc_add(even_sc(p, sk[id]), t));
+    assert(ae[0] == even_sc(p, a[0]));
+    assert forall|id: Identifier<TR>| #[trigger] dom.contains(id) implies skt[id] == poly::<AL<TR>>(at, id.0.0) by {
+        assert(sk[id] == poly::<AL<TR>>(a, id.0.0));
+        if pt_y_odd(p) { lemma_poly_neg(a, id.0.0); }
+        lemma_poly_shift(ae, t, id.0.0);
+    }
+    GG::<TR>::ax_smul_add(pt_gen(), even_sc(p, a[0]), t);
+    if pt_y_odd(p) { lemma_smul_neg::<TR>(pt_gen(), a[0]); }
+}
+
+// the tweaked packages (sign_with_tweak / aggregate_with_tweak work on `kp.tweak(root)` / `pk.tweak(root)`): both carry the BIP-341 output key,
+// and the tweaked verifying share is G * the tweaked signing share
+//@serves C18
+pub proof fn thm_tr_tweaked_packages(kp: KeyPackage<TR>, pk: PublicKeyPackage<TR>, q: PublicKeyPackage<TR>, root: Option<Seq<u8>>)
+    requires tr_pkp_tweak_is(pk, root, q), kp.verifying_key == pk.verifying_key, pk.verifying_shares@.contains_key(kp.identifier),
+        pk.verifying_shares@[kp.identifier] == mk_vs(g_mul(kp.signing_share.0.0))
+    ensures ({ let out = taproot_output_key(vk_pt(pk.verifying_key), root);
+        q.verifying_key == mk_vk(out) && tr_kp_tweak(kp, root).verifying_key == mk_vk(out)
+        && q.verifying_shares@.contains_key(kp.identifier) && q.verifying_shares@[kp.identifier] == mk_vs(g_mul(tr_kp_tweak(kp, root).signing_share.0.0))
+        && tr_kp_tweak(kp, root).signing_share.0.0 == sc_add(even_sc(vk_pt(pk.verifying_key), kp.signing_share.0.0), bip341_tweak(pt_x(vk_pt(pk.verifying_key)), root)) })
+{
+    let p = vk_pt(pk.verifying_key); let t = bip341_tweak(pt_x(p), root); let s = kp.signing_share.0.0;
+    GG::<TR>::ax_smul_add(pt_gen(), even_sc(p, s), t);
+    if pt_y_odd(p) { lemma_smul_neg::<TR>(pt_gen(), s); }
+}
+
+// key generation (DKG): post_dkg returns the KEY-PATH-ONLY tweak of both packages: output key  lift_x(x(P)) + hash_TapTweak(x(P))*G
+//@serves C18
+pub proof fn thm_tr_dkg_key_path_only(kp: KeyPackage<TR>, pk: PublicKeyPackage<TR>)
+    ensures TR::spec_post_dkg(kp, pk) == Ok::<(KeyPackage<TR>, PublicKeyPackage<TR>), Error<TR>>((tr_kp_tweak(kp, None), tr_pkp_tweak(pk, None))),
+        tr_kp_tweak(kp, None).verifying_key == mk_vk(taproot_output_key(vk_pt(kp.verifying_key), None)),
+        bip341_tweak(pt_x(vk_pt(kp.verifying_key)), None) == tagged_scalar(tag_taptweak(), pt_x(vk_pt(kp.verifying_key))),
+        (exists|q: PublicKeyPackage<TR>| tr_pkp_tweak_is(pk, None, q)) ==> tr_pkp_tweak(pk, None).verifying_key == mk_vk(taproot_output_key(vk_pt(pk.verifying_key), None)),
+        // the dealer path: post_generate is NOT overridden -- dealer output is handed out untweaked (callers use sign_with_tweak / aggregate_with_tweak)
+        forall|s: BTreeMap<Identifier<TR>, SecretShare<TR>>| #[trigger] TR::spec_post_generate(s, pk) == Ok::<(BTreeMap<Identifier<TR>, SecretShare<TR>>, PublicKeyPackage<TR>), Error<TR>>((s, pk)),
+{
+    lemma_taproot_world();
+    let x = pt_x(vk_pt(kp.verifying_key));
+    assert(x + Seq::<u8>::empty() =~= x);
+    if exists|q: PublicKeyPackage<TR>| tr_pkp_tweak_is(pk, None, q) { assert(tr_pkp_tweak_is(pk, None, tr_pkp_tweak(pk, None))); }
+}
+
+// the untweaked key.  A signature made for the output key Q verifies under the INTERNAL key P exactly if  e*ev(Q) == e'*ev(P)  with the two
+// BIP-340 challenges e = H(x(R) || x(Q) || m), e' = H(x(R) || x(P) || m).  That this relation between two hash outputs does not hold when
+// t*G != 0 is a property of the hash (not decided here); the theorem pins the claim down to exactly that relation.
+//@serves C18
+pub proof fn thm_tr_untweaked_key_iff(p: ProjectivePoint, q: ProjectivePoint, m: Seq<u8>, r: ProjectivePoint, z: Scalar)
+    requires p != pt_id(), r != pt_id(), g_mul(z) == pt_add(ev(r), pt_smul(ev(q), bip340_challenge(pt_x(r), pt_x(q), m)))
+    ensures bip340_verify(pt_x(p), m, tr_sig_bytes(Signature::<TR> { R: r, z: z }))
+        <==> pt_smul(ev(q), bip340_challenge(pt_x(r), pt_x(q), m)) == pt_smul(ev(p), bip340_challenge(pt_x(r), pt_x(p), m))
+{
+    let bytes = tr_sig_bytes(Signature::<TR> { R: r, z: z });
+    let zs = crate::secp256k1_tr::Secp256K1ScalarField::spec_ser(z);
+    ax_x_len(r); ax_x_len(p);
+    crate::secp256k1_tr::Secp256K1ScalarField::ax_ser_len(z);
+    crate::secp256k1_tr::Secp256K1ScalarField::ax_ser_deser(z);
+    assert(bytes.subrange(0, 32) =~= pt_x(r));
+    assert(bytes.subrange(32, 64) =~= zs);
+    lemma_ev(p); lemma_ev(r);
+    let e = bip340_challenge(pt_x(r), pt_x(q), m); let e2 = bip340_challenge(pt_x(r), pt_x(p), m);
+    let aa = pt_smul(ev(q), e); let bb = pt_smul(ev(p), e2);
+    let rr = pt_add(g_mul(z), pt_neg(bb));
+    // rr == ev(r) + (aa - bb)
+    GG::<TR>::ax_eadd_assoc(ev(r), aa, pt_neg(bb));
+    if aa == bb {
+        lemma_cancel2(ev(r), aa);
+        assert(is_lift_x(pt_x(p), ev(p)));
+        assert(bip340_verify_with(ev(p), pt_x(p), m, pt_x(r), z));
+    }
+    if bip340_verify(pt_x(p), m, bytes) {
+        let pp = choose|pp: ProjectivePoint| is_lift_x(pt_x(p), pp) && bip340_verify_with(pp, pt_x(p), m, bytes.subrange(0, 32),
+            crate::secp256k1_tr::Secp256K1ScalarField::spec_deser(bytes.subrange(32, 64))->Some_0);
+        ax_x_parity_determine(pp, ev(p));
+        ax_x_parity_determine(rr, ev(r));
+        // ev(r) + (aa - bb) == ev(r) + 0  ==>  aa - bb == 0  ==>  aa == bb
+        GG::<TR>::ax_eadd_id(ev(r));
+        lemma_eadd_cancel::<TR>(ev(r), pt_add(aa, pt_neg(bb)), pt_id());
+        lemma_esub_zero::<TR>(aa, bb);
+    }
+}
+
 } // verus!
 }
